@@ -24,7 +24,15 @@
    created for).
 
    op = "collect":  the tasks of a job: transitive closure over hard and soft
-   dependencies, every task once, two different tasks with one name rejected. *)
+   dependencies, every task once, two different tasks with one name rejected.
+   job is the SET of task objects in the list that job() returns: a task
+   object listed two or three times is one task (the harness derives the
+   list spellings -- order, repetitions -- of every job set TLC enumerates and
+   sends them through valjean.cambronne.common.collect_tasks / build_graphs).
+   The collected tasks are the least set that contains job and is closed under
+   hard and soft dependencies; the job is rejected iff two DISTINCT collected
+   tasks share a name, wherever they sit (both listed, one listed and one a
+   dependency, both reached only as -- hard or soft -- dependencies). *)
 EXTENDS Integers, Sequences, FiniteSets, TLC
 
 CONSTANTS Funcs, Bases, Keys, KwNames,       \* use requests
@@ -161,4 +169,8 @@ W_Mapped   == ~(\E i \in DOMAIN hist : \E t \in Injected(hist[i].req) : t \notin
 W_Mixed    == ~(\E i, j \in DOMAIN hist : hist[i].req.kind = "use" /\ hist[j].req.kind = "make")
 W_Rejected == ~(cdone /\ rejected /\ Cardinality(visited) < NTasks)
 W_Deep     == ~(cdone /\ Cardinality(job) = 1 /\ Cardinality(visited) = NTasks /\ NTasks >= 3)
+(* a name clash between two tasks of which neither is listed by the job, reached through soft dependencies only *)
+W_DeepSoftClash == ~(/\ cdone /\ rejected /\ ~DupNames(tname, job)
+                     /\ \A p \in Pairs : rel[p] \in {"none", "soft"}
+                     /\ \E i, j \in visited \ job : i # j /\ tname[i] = tname[j])
 =============================================================================
